@@ -827,6 +827,9 @@ func (r *runner) run(dir string) {
 				return err
 			}
 		}
+		if _, err := n.Fund(n.Account("thin").Addr, "250000"); err != nil { // pays for one call (210000), not for two
+			return err
+		}
 		for _, c := range p.Chains {
 			adm := n.Account("admin-" + c)
 			if _, err := n.Fund(adm.Addr, "3000000"); err != nil {
@@ -1046,6 +1049,18 @@ func (r *runner) run(dir string) {
 // ---------------------------------------------------------------------------------------------
 // random scenario generator
 // ---------------------------------------------------------------------------------------------
+// sender of a transaction: mostly one of the funded users, now and then an account that can pay for exactly one
+// call ("thin") or for none ("pauper")
+func sender(rng *rand.Rand) string {
+	switch rng.Intn(16) {
+	case 0:
+		return "pauper"
+	case 1:
+		return "thin"
+	}
+	return []string{"u1", "u2", "u3"}[rng.Intn(3)]
+}
+
 func genPlan(rng *rand.Rand, name string, mode string) *Plan {
 	p := &Plan{Name: name, Audit: rng.Intn(3) == 0, Seed: 1 + rng.Int63n(2), Proof: []string{"serial", "parallel"}[rng.Intn(2)],
 		Chains: []string{"chainA", "chainB"}, NSvc: 1 + rng.Intn(2), Black: map[string]string{}}
@@ -1183,7 +1198,7 @@ func genPlan(rng *rand.Rand, name string, mode string) *Plan {
 				if next[pair] == 0 {
 					next[pair], nextR[pair] = 1, 1
 				}
-				from := []string{"u1", "u2", "u3"}[rng.Intn(3)]
+				from := sender(rng)
 				proof := "ok"
 				if rng.Intn(9) == 0 {
 					proof = []string{"bad", "none"}[rng.Intn(2)]
@@ -1380,7 +1395,7 @@ func genXhub(rng *rand.Rand, name string) *Plan {
 		case c < 15:
 			var txs []Tx
 			for j := 1 + rng.Intn(3); j > 0; j-- {
-				from := []string{"u1", "u2", "u3"}[rng.Intn(3)]
+				from := sender(rng)
 				proof := "ok"
 				if rng.Intn(12) == 0 {
 					proof = []string{"bad", "none"}[rng.Intn(2)]
@@ -1541,7 +1556,7 @@ func genRules(rng *rand.Rand, name string) *Plan {
 		case c < 13:
 			var txs []Tx
 			for j := 1 + rng.Intn(3); j > 0; j-- {
-				from := []string{"u1", "u2", "u3"}[rng.Intn(3)]
+				from := sender(rng)
 				proof := "ok"
 				if rng.Intn(14) == 0 {
 					proof = []string{"bad", "none"}[rng.Intn(2)]
